@@ -20,6 +20,15 @@ which keeps the meaning exactly:
   * a local (or tuple of locals) bound once to a constant, a function reference or a lambda is replaced by what it is bound to;
   * comparisons / not / and / or / conditional expressions / if statements over constants are folded;
   * operator.ge(a, b) and friends become a >= b;  (lambda x, y: E)(a, b) becomes E[a/x, b/y];  getattr(x, 'name') becomes x.name;
+  * TABLE['key'] / TABLE[0] over a constant table (a display, or a module- / class-level name bound once to one and never stored
+    through or mutated anywhere in the program) becomes the entry; 'a' + 'b' and 'x%s' % 'y' become the string; a list / dict
+    comprehension over a constant table of constants becomes the display it builds; TABLE.get('key') likewise; a function
+    reference is true in a test;
+  * an if / elif / else whose arms each end by giving a fresh local a constant, followed by (at most three) statements that use it:
+    those statements are repeated in each arm with the constant written in;  `x = <constant / function reference>` is written
+    into the statements that follow it in its block, and dropped when x is read nowhere;
+  * x = TABLE[E] over a constant table of function references (E a plain reference) becomes the if / elif chain that picks the
+    entry, keys with the same entry grouped, `raise KeyError(E)` at the end;  E in TABLE becomes E in (keys...);
   * a search loop over a constant table whose body is `if TEST: ...; break` (or `...; return`) becomes the if / elif chain it
     runs, with the loop's else as the final else;
   * a call of a private helper (`_name`, same module, not recursive, no closures) that is a whole statement - `self._h(a)`,
@@ -27,6 +36,10 @@ which keeps the meaning exactly:
     to fresh locals first, in the order they were written; the helper's own locals are renamed where they would collide;
   * the same for a local function that is only ever called (its free variables are read at the call, where the body now stands);
   * a helper whose returns sit in if / else arms is rewritten so that every return ends its arm, and then read in place;
+  * a helper that is a single `return <expression>` called with plain references is written as that expression wherever the call
+    stands;
+  * a function under a new decorator of the plain wrapping kind (same parameters, some statements, `return fn(params)`) is read
+    as those statements followed by its own body;
   * a helper call in the middle of an expression or an `if` test that is evaluated first and always (everything before it pure)
     is bound to a fresh local just ahead of the statement.
 
@@ -216,6 +229,116 @@ class Simplifier:
                 return self.p.lookup_method(self.cls.qn, e.attr) is not None      # a bound method of the receiver, which is never rebound
         return False
 
+    MUTATORS = {'append', 'extend', 'insert', 'remove', 'pop', 'clear', 'sort', 'reverse', 'update', 'setdefault', 'popitem', 'add', 'discard',
+                '__setitem__', '__delitem__'}
+
+    def _mutated_names(self):
+        """names (globals, attributes) that are stored through, deleted from or have a mutating method called on them anywhere in the
+        program: a table bound to such a name is not taken for a constant"""
+        m = getattr(self.p, '_mutated_names_cache', None)
+        if m is not None:
+            return m
+        m = set()
+
+        def base_name(e):
+            if isinstance(e, ast.Name):
+                return e.id
+            if isinstance(e, ast.Attribute):
+                return e.attr
+            return None
+        for mod in self.p.modules.values():
+            class_level = set()
+            for n in ast.walk(mod.tree):
+                if isinstance(n, ast.ClassDef):
+                    for b in n.body:
+                        if isinstance(b, ast.Assign):
+                            class_level |= {id(t) for t in b.targets}
+            top = {id(t) for b in mod.tree.body if isinstance(b, ast.Assign) for t in b.targets}
+            for n in ast.walk(mod.tree):
+                if isinstance(n, (ast.Subscript, ast.Attribute)) and isinstance(n.ctx, (ast.Store, ast.Del)):
+                    if isinstance(n, ast.Subscript):
+                        b = base_name(n.value)
+                        if b:
+                            m.add(b)
+                    elif id(n) not in class_level:
+                        m.add(n.attr)                       # obj.NAME = ... rebinds it
+                elif isinstance(n, ast.AugAssign):
+                    b = base_name(n.target)
+                    if b:
+                        m.add(b)
+                elif isinstance(n, ast.Call) and isinstance(n.func, ast.Attribute) and n.func.attr in self.MUTATORS:
+                    b = base_name(n.func.value)
+                    if b:
+                        m.add(b)
+                elif isinstance(n, ast.Global):
+                    m.update(n.names)
+        self.p._mutated_names_cache = m
+        return m
+
+    def const_table(self, e, local):
+        """the literal (Dict / Tuple / List node) an expression denotes at every evaluation: a display written in place, a
+        module-level or class-level name bound once to a display and never stored through or mutated anywhere -> (node, from_module)"""
+        if isinstance(e, (ast.Tuple, ast.List, ast.Dict)):
+            return e, False
+        if isinstance(e, ast.Name) and e.id not in local:
+            v = self.mod.consts.get(e.id)
+            if isinstance(v, (ast.Tuple, ast.List, ast.Dict)) and (isinstance(v, ast.Tuple) or e.id not in self._mutated_names()):
+                return v, True
+            return None
+        if isinstance(e, ast.Name) and e.id not in _params(self.f.args):
+            # a local bound once, at the top level of the function, to a display of constants / function references, and only ever
+            # looked things up in (T[k], k in T, T.get(k)): a table, too
+            defs = [st for st in self.f.body if isinstance(st, ast.Assign) and len(st.targets) == 1 and isinstance(st.targets[0], ast.Name)
+                    and st.targets[0].id == e.id]
+            if len(defs) != 1 or stores(self.f).get(e.id) != 1 or not isinstance(defs[0].value, (ast.Dict, ast.Tuple)):
+                return None
+            v = defs[0].value
+            cells = (list(v.keys) + list(v.values)) if isinstance(v, ast.Dict) else list(v.elts)
+            if any(c is None or not (self.stable_ref(c, local) or (isinstance(c, ast.Tuple) and all(self.stable_ref(x, local) for x in c.elts))) for c in cells):
+                return None
+            parents = {}
+            for n in ast.walk(self.f):
+                for c in ast.iter_child_nodes(n):
+                    parents[id(c)] = n
+            for n in ast.walk(self.f):
+                if isinstance(n, ast.Name) and n.id == e.id and isinstance(n.ctx, ast.Load):
+                    par = parents.get(id(n))
+                    ok = (isinstance(par, ast.Subscript) and par.value is n and isinstance(par.ctx, ast.Load)) or \
+                        (isinstance(par, ast.Compare) and n in par.comparators and all(isinstance(o, (ast.In, ast.NotIn)) for o in par.ops)) or \
+                        (isinstance(par, ast.Attribute) and par.attr == 'get') or isinstance(par, ast.For) and par.iter is n
+                    if not ok:
+                        return None
+            return v, False
+        if isinstance(e, ast.Attribute) and isinstance(e.value, ast.Name):
+            cq = None
+            if e.value.id in ('self', 'cls') and e.value.id in _params(self.f.args)[:1] and not stores(self.f).get(e.value.id) and self.cls is not None:
+                cq = self.cls.qn
+            elif e.value.id not in local:
+                sy = self.mod.syms.get(e.value.id)
+                if sy is not None and sy.kind == 'class':
+                    cq = sy.target
+            if cq is None or e.attr in self._mutated_names():
+                return None
+            # the attribute as the class body binds it - once, to a display - in the first class of the MRO that has it; no
+            # subclass and no instance rebinds it (that would be a store, seen by _mutated_names)
+            for q in self.p.mro(cq):
+                c = self.p.classes.get(q)
+                if c is None:
+                    return None
+                hits = [b for b in c.node.body if isinstance(b, ast.Assign) and any(isinstance(t, ast.Name) and t.id == e.attr for t in b.targets)]
+                if len(hits) == 1 and isinstance(hits[0].value, (ast.Tuple, ast.List, ast.Dict)):
+                    if any(e.attr in {t.id for b in self.p.classes[sq].node.body if isinstance(b, ast.Assign) for t in b.targets if isinstance(t, ast.Name)}
+                           for sq in self.p.subclasses(cq) if sq in self.p.classes):
+                        return None
+                    return hits[0].value, True
+                if hits or e.attr in c.methods or e.attr in c.attrs_assigned:
+                    return None
+        return None
+
+    def truthy_ref(self, e, local):
+        """a reference to a function object (a module-level function, operator.X, a bound method, a lambda): true in a test"""
+        return not _const(e) and not isinstance(e, (ast.Tuple, ast.List)) and self.stable_ref(e, local)
+
     def _is_stdlib_operator(self):
         s = self.mod.syms.get('operator')
         return s is not None and s.kind == 'ext' and s.target == 'operator'
@@ -227,6 +350,16 @@ class Simplifier:
         class T(ast.NodeTransformer):
             def visit_Compare(self, n):
                 self.generic_visit(n)
+                if len(n.ops) == 1 and isinstance(n.ops[0], (ast.Is, ast.IsNot)) and _const(n.comparators[0]) and n.comparators[0].value is None \
+                        and me.truthy_ref(n.left, local):
+                    me.changed = True
+                    return ast.copy_location(ast.Constant(isinstance(n.ops[0], ast.IsNot)), n)       # a function object is not None
+                if len(n.ops) == 1 and isinstance(n.ops[0], (ast.In, ast.NotIn)) and isinstance(n.comparators[0], ast.Name):
+                    t = me.const_table(n.comparators[0], local)
+                    if t is not None and isinstance(t[0], ast.Dict) and all(k is not None and _const(k) for k in t[0].keys):
+                        me.changed = True
+                        n.comparators[0] = ast.copy_location(ast.Tuple([copy.deepcopy(k) for k in t[0].keys], ast.Load()), n.comparators[0])
+                        return self.visit_Compare(n) if _const(n.left) else n
                 if len(n.ops) == 1 and _const(n.left):
                     r = n.comparators[0]
                     op = n.ops[0]
@@ -275,17 +408,149 @@ class Simplifier:
                 n.values = vals
                 return n
 
+            def visit_Subscript(self, n):
+                self.generic_visit(n)
+                if not isinstance(n.ctx, ast.Load) or not _const(n.slice):
+                    return n
+                t = me.const_table(n.value, local)
+                if t is None:
+                    return n
+                tab, from_module = t
+                hit = None
+                if isinstance(tab, ast.Dict):
+                    for k, v in zip(tab.keys, tab.values):
+                        if k is None or not _const(k):
+                            return n
+                        try:
+                            if k.value == n.slice.value and type(k.value) is type(n.slice.value):
+                                hit = v
+                        except Exception:
+                            return n
+                elif isinstance(n.slice.value, int) and not isinstance(n.slice.value, bool) and -len(tab.elts) <= n.slice.value < len(tab.elts) \
+                        and not any(isinstance(x, ast.Starred) for x in tab.elts):
+                    hit = tab.elts[n.slice.value]
+                if hit is None:
+                    return n
+                ok = me.stable_ref(hit, local) or (isinstance(hit, ast.Tuple) and hit.elts and all(me.stable_ref(x, local) for x in hit.elts))
+                if not ok:
+                    return n
+                hit = copy.deepcopy(hit)
+                if from_module:
+                    for x in ast.walk(hit):
+                        if isinstance(x, ast.Lambda):
+                            x._from_module = True
+                me.changed = True
+                return ast.copy_location(hit, n)
+
+            def visit_BinOp(self, n):
+                self.generic_visit(n)
+                if _const(n.left) and _const(n.right) and isinstance(n.left.value, str):
+                    try:
+                        if isinstance(n.op, ast.Add) and isinstance(n.right.value, str):
+                            me.changed = True
+                            return ast.copy_location(ast.Constant(n.left.value + n.right.value), n)
+                        if isinstance(n.op, ast.Mod) and isinstance(n.right.value, (str, int)) and not isinstance(n.right.value, bool):
+                            me.changed = True
+                            return ast.copy_location(ast.Constant(n.left.value % n.right.value), n)
+                    except Exception:
+                        return n
+                if isinstance(n.op, ast.Mod) and _const(n.left) and isinstance(n.left.value, str) and isinstance(n.right, ast.Tuple) \
+                        and all(_const(x) and isinstance(x.value, (str, int)) and not isinstance(x.value, bool) for x in n.right.elts):
+                    try:
+                        me.changed = True
+                        return ast.copy_location(ast.Constant(n.left.value % tuple(x.value for x in n.right.elts)), n)
+                    except Exception:
+                        return n
+                return n
+
+            def _comp(self, n):
+                self.generic_visit(n)
+                if len(n.generators) != 1 or n.generators[0].is_async:
+                    return n
+                g = n.generators[0]
+                t = me.const_table(g.iter, local)
+                if t is None or isinstance(t[0], ast.Dict):
+                    return n
+                tab, from_module = t
+                tg = g.target
+                names = [tg.id] if isinstance(tg, ast.Name) else [x.id for x in tg.elts] if isinstance(tg, (ast.Tuple, ast.List)) and \
+                    all(isinstance(x, ast.Name) for x in tg.elts) else None
+                if names is None or len(tab.elts) > 40:
+                    return n
+                rows = []
+                for r in tab.elts:
+                    if isinstance(tg, ast.Name):
+                        vals = [r]
+                    elif isinstance(r, (ast.Tuple, ast.List)) and len(r.elts) == len(names):
+                        vals = list(r.elts)
+                    else:
+                        return n
+                    if not all(_const(v) for v in vals):
+                        return n          # (only constants: a row element is copied to each use of the loop variable)
+                    rows.append(dict(zip(names, vals)))
+                out_items = []
+                for m in rows:
+                    keep = True
+                    for c in g.ifs:
+                        c2 = me.fold_expr(Subst(m).visit(copy.deepcopy(c)), local)
+                        if not _const(c2):
+                            return n
+                        keep = keep and bool(c2.value)
+                    if not keep:
+                        continue
+                    if isinstance(n, ast.DictComp):
+                        out_items.append((Subst(m).visit(copy.deepcopy(n.key)), Subst(m).visit(copy.deepcopy(n.value))))
+                    else:
+                        out_items.append(Subst(m).visit(copy.deepcopy(n.elt)))
+                me.changed = True
+                if isinstance(n, ast.DictComp):
+                    # a later equal key replaces an earlier one in a comprehension and in a display alike
+                    new = ast.Dict([k for k, _ in out_items], [v for _, v in out_items])
+                elif isinstance(n, ast.ListComp):
+                    new = ast.List(out_items, ast.Load())
+                else:
+                    return n
+                return me.fold_expr(ast.copy_location(new, n), local)
+
+            visit_ListComp = visit_DictComp = _comp
+
             def visit_IfExp(self, n):
                 self.generic_visit(n)
                 if _const(n.test):
                     me.changed = True
                     return n.body if n.test.value else n.orelse
+                if me.truthy_ref(n.test, local):
+                    me.changed = True
+                    return n.body
                 return n
 
             def visit_Call(self, n):
                 self.generic_visit(n)
                 fn = n.func
                 if n.keywords or any(isinstance(a, ast.Starred) for a in n.args):
+                    return n
+                if isinstance(fn, ast.Attribute) and fn.attr == 'get' and 1 <= len(n.args) <= 2 and _const(n.args[0]) \
+                        and (len(n.args) == 1 or me._pure(n.args[1], local)):
+                    t = me.const_table(fn.value, local)
+                    if t is not None and isinstance(t[0], ast.Dict) and all(k is not None and _const(k) for k in t[0].keys):
+                        hit = None
+                        try:
+                            for k, v in zip(t[0].keys, t[0].values):
+                                if k.value == n.args[0].value and type(k.value) is type(n.args[0].value):
+                                    hit = v
+                        except Exception:
+                            return n
+                        if hit is None:
+                            me.changed = True
+                            return ast.copy_location(copy.deepcopy(n.args[1]) if len(n.args) == 2 else ast.Constant(None), n)
+                        if me.stable_ref(hit, local) or (isinstance(hit, ast.Tuple) and hit.elts and all(me.stable_ref(x, local) for x in hit.elts)):
+                            hit = copy.deepcopy(hit)
+                            if t[1]:
+                                for x in ast.walk(hit):
+                                    if isinstance(x, ast.Lambda):
+                                        x._from_module = True
+                            me.changed = True
+                            return ast.copy_location(hit, n)
                     return n
                 if isinstance(fn, ast.Attribute) and isinstance(fn.value, ast.Name) and fn.value.id == 'operator' \
                         and 'operator' not in local and me._is_stdlib_operator() and len(n.args) == 2:
@@ -295,6 +560,25 @@ class Simplifier:
                     if fn.attr in OPERATOR_BIN:
                         me.changed = True
                         return ast.copy_location(ast.BinOp(n.args[0], OPERATOR_BIN[fn.attr](), n.args[1]), n)
+                r = me._helper(n, local)
+                if r is not None:
+                    h, binds, bound = r
+                    hb = _strip_doc(h.node.body)
+                    if len(hb) == 1 and isinstance(hb[0], ast.Return) and hb[0].value is not None and not stores(h.node) \
+                            and all(isinstance(a, (ast.Name, ast.Constant)) or me.stable_ref(a, local) for _nm, a in binds):
+                        # a helper that is one expression: written in place, wherever the call stands (its parameters are plain
+                        # references here, so nothing is evaluated twice or out of turn)
+                        body = copy.deepcopy(hb[0].value)
+                        free = free_names(body) - {nm for nm, _a in binds} - ({h.posparams[0]} if bound and h.posparams else set())
+                        if not (free & local):
+                            m = dict(binds)
+                            if bound and h.posparams:
+                                m[h.posparams[0]] = ast.Name('self', ast.Load())
+                            body = Subst(m).visit(body)
+                            me.changed = True
+                            me.inlined += 1
+                            me.via.append(h.qn)
+                            return ast.copy_location(body, n)
                 if isinstance(fn, ast.Name) and fn.id == 'getattr' and 'getattr' not in local and 'getattr' not in me.mod.syms and len(n.args) == 2 \
                         and _const(n.args[1]) and isinstance(n.args[1].value, str) and n.args[1].value.isidentifier() \
                         and not n.args[1].value.startswith('__'):
@@ -329,6 +613,11 @@ class Simplifier:
             if isinstance(s, SCOPES):
                 out.append(s)
                 continue
+            if isinstance(s, (ast.Assign, ast.Return, ast.Expr)) and s.value is not None and \
+                    not (isinstance(s.value, ast.Call) and self._helper(s.value, local) is not None):
+                s.value = self.fold_expr(s.value, local)
+            elif isinstance(s, ast.If):
+                s.test = self.fold_expr(s.test, local)
             hoisted = self.hoist(s, local)
             if hoisted is not None:
                 self.changed = True
@@ -341,6 +630,10 @@ class Simplifier:
                 if _const(s.test):
                     self.changed = True
                     out.extend(s.body if s.test.value else s.orelse)
+                    continue
+                if self.truthy_ref(s.test, local):
+                    self.changed = True
+                    out.extend(s.body)
                     continue
                 out.append(s)
                 continue
@@ -406,8 +699,12 @@ class Simplifier:
         body = _strip_doc(h.node.body)
         if len(body) > 25 or any(isinstance(n, (ast.Yield, ast.YieldFrom, ast.Await, ast.Global, ast.Nonlocal)) for n in _own(h.node)):
             return None
-        if any(isinstance(n, SCOPES) for n in _own(h.node)):
-            return None                   # closures over the helper's own locals: left alone
+        hown = set(stores(h.node)) | set(h.params)
+        for n in _own(h.node):
+            if isinstance(n, ast.Lambda) and not (free_names(n) & hown):
+                continue                  # a lambda that reads nothing of the helper's: the same function wherever it is written
+            if isinstance(n, SCOPES):
+                return None               # closures over the helper's own locals: left alone
         pos = list(h.posparams)
         m = []
         if bound:
@@ -661,6 +958,154 @@ class Simplifier:
         self.via.append(h.qn)
         return out or [ast.copy_location(ast.Pass(), s)]
 
+    def dispatch_to_chain(self, stmts, local):
+        """x = TABLE[E] with E a plain reference and TABLE a constant table of function references: the if / elif chain that picks
+        the entry (keys with the same entry grouped), ending in `raise KeyError(E)`"""
+        for i, st in enumerate(stmts):
+            if isinstance(st, ast.Assign) and len(st.targets) == 1 and isinstance(st.targets[0], ast.Name) and isinstance(st.value, ast.Subscript) \
+                    and not _const(st.value.slice) and self._pure(st.value.slice, local):
+                t = self.const_table(st.value.value, local)
+                if t is not None and isinstance(t[0], ast.Dict) and 1 <= len(t[0].keys) <= 12 and \
+                        all(k is not None and _const(k) and isinstance(k.value, (str, int)) for k in t[0].keys) and \
+                        all(self.truthy_ref(v, local) for v in t[0].values):
+                    groups = []
+                    for k, v in zip(t[0].keys, t[0].values):
+                        d = ast.dump(v)
+                        for g in groups:
+                            if g[0] == d:
+                                g[2].append(k)
+                                break
+                        else:
+                            groups.append([d, v, [k]])
+                    E = st.value.slice
+                    chain = [ast.copy_location(ast.Raise(ast.Call(ast.Name('KeyError', ast.Load()), [copy.deepcopy(E)], []), None), st)]
+                    for d, v, ks in reversed(groups):
+                        if len(ks) == 1:
+                            test = ast.Compare(copy.deepcopy(E), [ast.Eq()], [copy.deepcopy(ks[0])])
+                        else:
+                            test = ast.Compare(copy.deepcopy(E), [ast.In()], [ast.Tuple([copy.deepcopy(k) for k in ks], ast.Load())])
+                        val = copy.deepcopy(v)
+                        if t[1]:
+                            for x in ast.walk(val):
+                                if isinstance(x, ast.Lambda):
+                                    x._from_module = True
+                        chain = [ast.copy_location(ast.If(test, [ast.copy_location(ast.Assign([copy.deepcopy(st.targets[0])], val), st)], chain), st)]
+                    ast.fix_missing_locations(chain[0])
+                    stmts[i:i + 1] = chain
+                    self.changed = True
+                    return True
+            for fld, val in ast.iter_fields(st):
+                if isinstance(val, list) and val and isinstance(val[0], ast.stmt) and not isinstance(st, SCOPES):
+                    if self.dispatch_to_chain(val, local):
+                        return True
+                elif isinstance(val, list) and val and isinstance(val[0], ast.ExceptHandler):
+                    for hd in val:
+                        if self.dispatch_to_chain(hd.body, local):
+                            return True
+        return False
+
+    def sink_into_arms(self, stmts):
+        """if / elif / else every arm of which ends by giving one of our fresh locals a constant, followed by statements that use it:
+        those statements (up to the last use; at most three) are repeated at the end of each arm, where the local's value is known"""
+        for i, st in enumerate(stmts):
+            if isinstance(st, ast.If) and i + 1 < len(stmts):
+                arms = []
+
+                def collect(n):
+                    arms.append(n.body)
+                    if len(n.orelse) == 1 and isinstance(n.orelse[0], ast.If):
+                        collect(n.orelse[0])
+                    else:
+                        arms.append(n.orelse)
+                collect(st)
+                # arms that never reach what follows (they end in raise / return) take no copy
+                arms = [a for a in arms if not (a and isinstance(a[-1], (ast.Raise, ast.Return)))]
+                if 1 <= len(arms) <= 8 and all(a and isinstance(a[-1], ast.Assign) and len(a[-1].targets) == 1 and isinstance(a[-1].targets[0], ast.Name)
+                                              and (_const(a[-1].value) or self.stable_ref(a[-1].value, set(stores(self.f)) | set(_params(self.f.args))))
+                                              for a in arms):
+                    t = arms[0][-1].targets[0].id
+                    n_stores = sum(1 for n in ast.walk(self.f) if isinstance(n, ast.Name) and n.id == t and isinstance(n.ctx, (ast.Store, ast.Del)))
+                    if t not in _params(self.f.args) and n_stores == len(arms) and all(a[-1].targets[0].id == t for a in arms):
+                        rest = stmts[i + 1:]
+                        uses = [j for j, r in enumerate(rest) if any(isinstance(n, ast.Name) and n.id == t for n in ast.walk(r))]
+                        later_stores = any(isinstance(n, ast.Name) and n.id == t and isinstance(n.ctx, ast.Store) for r in rest for n in ast.walk(r))
+                        everywhere = [n for n in ast.walk(self.f) if isinstance(n, ast.Name) and n.id == t and isinstance(n.ctx, ast.Load)]
+                        inside = [n for r in rest for n in ast.walk(r) if isinstance(n, ast.Name) and n.id == t and isinstance(n.ctx, ast.Load)]
+                        if uses and uses[-1] <= 2 and not later_stores and len(everywhere) == len(inside) \
+                                and not any(isinstance(n, (ast.Return, ast.Break, ast.Continue)) for r in rest[:uses[-1] + 1] for n in ast.walk(r)):
+                            moved = rest[:uses[-1] + 1]
+                            for a in arms:
+                                c = a[-1].value
+                                a.pop()
+                                a.extend(Subst({t: c}).visit(copy.deepcopy(m)) for m in moved)
+                            del stmts[i + 1:i + 2 + uses[-1]]
+                            self.changed = True
+                            return True
+            for fld, val in ast.iter_fields(st):
+                if isinstance(val, list) and val and isinstance(val[0], ast.stmt) and not isinstance(st, SCOPES):
+                    if self.sink_into_arms(val):
+                        return True
+                elif isinstance(val, list) and val and isinstance(val[0], ast.ExceptHandler):
+                    for hd in val:
+                        if self.sink_into_arms(hd.body):
+                            return True
+        return False
+
+    def propagate_in_block(self, stmts, local):
+        """`x = <constant or function reference>` : in the statements that follow in the same block, up to the next binding of x, x
+        is written as what it is bound to"""
+        for i, st in enumerate(stmts):
+            if isinstance(st, ast.Assign) and len(st.targets) == 1 and isinstance(st.targets[0], ast.Name) and \
+                    (self.stable_ref(st.value, local)) and st.targets[0].id not in _params(self.f.args):
+                x = st.targets[0].id
+                if isinstance(st.value, ast.Name) and st.value.id == x:
+                    continue
+                did = False
+                for nxt in stmts[i + 1:]:
+                    stores_x = any(isinstance(n, ast.Name) and n.id == x and isinstance(n.ctx, (ast.Store, ast.Del)) for n in ast.walk(nxt))
+                    loads = [n for n in ast.walk(nxt) if isinstance(n, ast.Name) and n.id == x and isinstance(n.ctx, ast.Load)]
+                    if stores_x or any(isinstance(n, SCOPES + COMPS) for n in ast.walk(nxt) if n is not nxt) and loads:
+                        break
+                    if loads:
+                        sub = Subst({x: st.value})
+                        idx = stmts.index(nxt)
+                        stmts[idx] = sub.visit(nxt)
+                        did = did or sub.count > 0
+                if did:
+                    self.changed = True
+                    return True
+            for fld, val in ast.iter_fields(st):
+                if isinstance(val, list) and val and isinstance(val[0], ast.stmt) and not isinstance(st, SCOPES):
+                    if self.propagate_in_block(val, local):
+                        return True
+                elif isinstance(val, list) and val and isinstance(val[0], ast.ExceptHandler):
+                    for hd in val:
+                        if self.propagate_in_block(hd.body, local):
+                            return True
+        return False
+
+    def drop_dead_stores(self, local):
+        """`x = <constant or function reference>` where x is read nowhere in the function"""
+        loaded = {n.id for n in ast.walk(self.f) if isinstance(n, ast.Name) and isinstance(n.ctx, (ast.Load, ast.Del))}
+        params = set(_params(self.f.args))
+        did = False
+        for st in list(ast.walk(self.f)):
+            if isinstance(st, ast.Assign) and len(st.targets) == 1 and isinstance(st.targets[0], ast.Name) and st.targets[0].id not in loaded \
+                    and st.targets[0].id not in params and (self.stable_ref(st.value, local) or self._const_display(st.value, local)) and not any(
+                        isinstance(n, (ast.Global, ast.Nonlocal)) and st.targets[0].id in n.names for n in ast.walk(self.f)):
+                self._drop(st)
+                did = True
+        if did:
+            self.changed = True
+        return did
+
+    def _const_display(self, v, local):
+        if isinstance(v, ast.Dict):
+            return all(k is not None and self.stable_ref(k, local) for k in v.keys) and all(self.stable_ref(x, local) for x in v.values)
+        if isinstance(v, (ast.Tuple, ast.List)):
+            return all(self.stable_ref(x, local) or self._const_display(x, local) for x in v.elts)
+        return False
+
     def rename_copied_temps(self):
         """`x = t` (or `a, b = (t, u)`) where t is one of our fresh locals read nowhere else and x is bound nowhere else: t is
         simply called x from the start"""
@@ -756,9 +1201,41 @@ class Simplifier:
     def _calls_new_helper(self):
         counts = stores(self.f)
         local = set(counts) | set(_params(self.f.args))
+        vocab = vocabulary()
         for st in ast.walk(self.f):
             if isinstance(st, ast.Call) and self._helper(st, local) is not None:
                 return True
+            # or mentions a new function as a value (a dispatch table of bound methods, a strategy handed on)
+            if isinstance(st, ast.Attribute) and isinstance(st.ctx, ast.Load) and isinstance(st.value, ast.Name) and st.value.id == 'self' \
+                    and self.cls is not None:
+                hm = self.p.lookup_method(self.cls.qn, st.attr)
+                if hm is not None and self.allow(hm.qn) and hm.mod is self.mod:
+                    return True
+            if isinstance(st, ast.Name) and isinstance(st.ctx, ast.Load) and st.id not in local:
+                sy = self.mod.syms.get(st.id)
+                if sy is not None and sy.kind == 'func' and self.allow(sy.target) and sy.target in dict.keys(self.p.funcs) \
+                        and self.p.funcs[sy.target].mod is self.mod:
+                    return True
+            # or reads a table that is new: code replaced by a lookup
+            if isinstance(st, ast.Name) and isinstance(st.ctx, ast.Load) and st.id not in local and st.id in self.mod.consts \
+                    and 'const:%s.%s' % (self.mod.name, st.id) not in vocab and self.const_table(st, local) is not None:
+                self.via.append('%s.%s' % (self.mod.name, st.id))
+                return True
+            if isinstance(st, ast.Attribute) and isinstance(st.ctx, ast.Load) and isinstance(st.value, ast.Name) and st.attr.isupper() \
+                    and self.const_table(st, local) is not None:
+                owner = None
+                cq = self.cls.qn if (self.cls is not None and st.value.id in ('self', 'cls')) else None
+                if cq is None:
+                    sy = self.mod.syms.get(st.value.id)
+                    cq = sy.target if sy is not None and sy.kind == 'class' else None
+                for q in (self.p.mro(cq) if cq else ()):
+                    c = self.p.classes.get(q)
+                    if c is not None and any(isinstance(b, ast.Assign) and any(isinstance(t, ast.Name) and t.id == st.attr for t in b.targets) for b in c.node.body):
+                        owner = q
+                        break
+                if owner and 'const:%s.%s' % (owner, st.attr) not in vocab:
+                    self.via.append('%s.%s' % (owner, st.attr))
+                    return True
         return False
 
     def _table(self, it, local, stmts_before):
@@ -779,13 +1256,7 @@ class Simplifier:
         return rows, d[1]
 
     def _table_value(self, e, local):
-        if isinstance(e, (ast.Tuple, ast.List, ast.Dict)):
-            return e, False
-        if isinstance(e, ast.Name) and e.id not in local:
-            v = self.mod.consts.get(e.id)
-            if v is not None:
-                return v, True
-        return None
+        return self.const_table(e, local)
 
     def unroll(self, s, local):
         """for TARGETS in TABLE: if TEST: BODY; break   [else: ELSE]   ->   if TEST1: BODY1 elif TEST2: BODY2 ... else: ELSE"""
@@ -897,6 +1368,7 @@ class Simplifier:
             # the program-wide pass: a function in which no new helper is called is left exactly as it was written
             if not self._calls_new_helper():
                 return self.f
+            self.gate_open = True
         for _ in range(40):
             self.changed = False
             counts = stores(self.f)
@@ -912,6 +1384,19 @@ class Simplifier:
                 pass
             while self.rename_copied_temps():
                 pass
+            if self.via or self.inlined or not self.only_after_inlining or getattr(self, 'gate_open', False):
+                guard = 0
+                lc0 = set(stores(self.f)) | set(_params(self.f.args))
+                while guard < 10 and self.dispatch_to_chain(self.f.body, lc0):
+                    guard += 1
+                guard = 0
+                while guard < 20 and self.sink_into_arms(self.f.body):
+                    guard += 1
+                guard = 0
+                lc = set(stores(self.f)) | set(_params(self.f.args))
+                while guard < 40 and self.propagate_in_block(self.f.body, lc):
+                    guard += 1
+                self.drop_dead_stores(lc)
             # a local function nothing refers to any more
             used = {n.id for n in ast.walk(self.f) if isinstance(n, ast.Name)}
             keep = [d for d in self.f.body if not (isinstance(d, ast.FunctionDef) and d.name not in used and any(q.endswith('.' + d.name) for q in self.via))]
@@ -979,7 +1464,8 @@ def vocabulary():
         import os
         path = os.path.join(os.path.dirname(os.path.abspath(__file__)), 'vocabulary.json')
         try:
-            _VOCAB = frozenset(json.load(open(path))['functions'])
+            d = json.load(open(path))
+            _VOCAB = frozenset(d['functions']) | frozenset('const:' + c for c in d.get('constants', []))
         except (OSError, ValueError, KeyError) as e:
             from .model import AnalysisError
             raise AnalysisError('sa/vocabulary.json is missing or unreadable: %s' % e)
@@ -992,10 +1478,27 @@ def normalise(p):
     so the call graph, the effect summaries and every rule read the same thing.  On the tree the vocabulary was taken from
     this does nothing at all."""
     vocab = vocabulary()
-    if all(q in vocab for q in p.funcs):
+    def new_constants():
+        for m in p.modules.values():
+            for b in m.tree.body:
+                if isinstance(b, ast.Assign) and any(isinstance(t, ast.Name) and 'const:%s.%s' % (m.name, t.id) not in vocab for t in b.targets):
+                    return True
+        for c in p.classes.values():
+            for b in c.node.body:
+                if isinstance(b, ast.Assign) and any(isinstance(t, ast.Name) and 'const:%s.%s' % (c.qn, t.id) not in vocab for t in b.targets):
+                    return True
+        return False
+    if all(q in vocab for q in p.funcs) and not new_constants():
         return []
     done = []
     for qn, f in sorted(p.funcs.items()):
+        d = _undecorate(p, f, vocab)
+        if d:
+            f.inlined = [d]
+            done.append((qn, [d]))
+    # new functions first, twice (a helper that calls a helper), so that a caller reads them in the form they end up in
+    order = [(qn, f) for qn, f in sorted(p.funcs.items()) if qn not in vocab] * 2 + [(qn, f) for qn, f in sorted(p.funcs.items()) if qn in vocab]
+    for qn, f in order:
         if isinstance(f.node, ast.Lambda) or f.parent is not None:
             continue
         try:
@@ -1004,16 +1507,73 @@ def normalise(p):
             sim.stack = {qn}
             before = ast.dump(work)
             work = sim.run()
-            if sim.via and ast.dump(work) != before:
+            if (sim.via or getattr(sim, 'gate_open', False)) and ast.dump(work) != before:
                 renumber(work)
                 f.node.body = work.body
-                f.inlined = list(sim.via)
+                f.inlined = list(sim.via) or ['(rewritten)']
                 done.append((qn, list(sim.via)))
         except RecursionError:
             continue
     if done:
         _drop_unreferenced(p, {h for _q, via in done for h in via}, vocab)
     return done
+
+
+def _undecorate(p, f, vocab):
+    """@guard  def f(params): BODY   with a new module-level decorator of the plain wrapping kind
+
+        def guard(fn):
+            @functools.wraps(fn)                  (optional)
+            def inner(params):                    (the same parameters as f)
+                PRE
+                return fn(params)
+            return inner
+
+    is read as  def f(params): PRE; BODY  -> the decorator's qualified name, or None"""
+    node = f.node
+    if isinstance(node, ast.Lambda) or len(getattr(node, 'decorator_list', [])) != 1 or not isinstance(node.decorator_list[0], ast.Name):
+        return None
+    sy = f.mod.syms.get(node.decorator_list[0].id)
+    if sy is None or sy.kind != 'func' or sy.target in vocab:
+        return None
+    D = p.funcs.get(sy.target)
+    if D is None or D.mod is not f.mod or D.cls is not None or len(D.params) != 1 or D.vararg or D.kwarg:
+        return None
+    body = _strip_doc(D.node.body)
+    if len(body) != 2 or not isinstance(body[0], ast.FunctionDef) or not isinstance(body[1], ast.Return) or \
+            not (isinstance(body[1].value, ast.Name) and body[1].value.id == body[0].name):
+        return None
+    g = body[0]
+    fn = D.params[0]
+    for d in g.decorator_list:
+        if not (isinstance(d, ast.Call) and ast.unparse(d.func) in ('functools.wraps', 'wraps') and len(d.args) == 1
+                and isinstance(d.args[0], ast.Name) and d.args[0].id == fn):
+            return None
+    if ast.dump(g.args) != ast.dump(node.args):
+        return None                       # the wrapper must take exactly what the function takes
+    gb = _strip_doc(g.body)
+    if not gb or not isinstance(gb[-1], ast.Return) or not isinstance(gb[-1].value, ast.Call):
+        return None
+    call = gb[-1].value
+    names = _params(g.args)
+    if not (isinstance(call.func, ast.Name) and call.func.id == fn and not call.keywords and len(call.args) == len(names)
+            and all(isinstance(a, ast.Name) and a.id == nm for a, nm in zip(call.args, names))):
+        return None
+    pre = gb[:-1]
+    if any(isinstance(n, ast.Name) and n.id == fn for st in pre for n in ast.walk(st)):
+        return None                       # the wrapped function is used for something else than the final call
+    if any(isinstance(n, (ast.Yield, ast.YieldFrom, ast.Await, ast.Global, ast.Nonlocal) + SCOPES) for st in pre for n in ast.walk(st)):
+        return None
+    pre_stores = set()
+    for st in pre:
+        pre_stores |= {n.id for n in ast.walk(st) if isinstance(n, ast.Name) and isinstance(n.ctx, (ast.Store, ast.Del))}
+    if pre_stores:
+        return None                       # (a wrapper with locals of its own: left alone)
+    doc = node.body[:1] if node.body and node.body is not _strip_doc(node.body) and len(_strip_doc(node.body)) != len(node.body) else []
+    node.body = doc + [copy.deepcopy(st) for st in pre] + _strip_doc(node.body)
+    node.decorator_list = []
+    f.node.body = node.body
+    return D.qn
 
 
 def _drop_unreferenced(p, inlined, vocab):
